@@ -41,7 +41,8 @@ def main():
                 if v is None:
                     continue
                 tag = "r%d-%s%s%s%s" % (r, a, f0, b, f1)
-                l1 = we.leg(p, a, FMT[f0], FMT[f1], v, tag + "-1", block=[None, 1, 2][r % 3])
+                # Python writers are fed lazily (generator), from a materialised list, or item by item (+ an empty batch)
+                l1 = we.leg(p, a, FMT[f0], FMT[f1], v, tag + "-1", block=[None, 1, 2][r % 3], mode=["copy", "list", "items"][r % 3])
                 if not l1["ok"]:
                     out.append((p, r, (a, b, f0, f1), 1, v, l1))
                     continue
